@@ -99,8 +99,7 @@ def main(pid, argv):
                     bad = "standard error %s(%r) reached the client as %s" % (k, arg, rec[:200])
         if bad:
             nf += 1
-            if nf <= 3:
-                ck.fail("e2e-error", line, bad, impl=il[:1200], model=ml[:1200])
+            ck.fail("e2e-error", line, bad, impl=il[:1200], model=ml[:1200])
             continue
         if il.split(" released=")[0] != ml:
             ck.tie_broken("client observables differ from the model", line[:1200], il[:600], ml[:600])
